@@ -51,6 +51,8 @@ Derive(op, v) ==
     [] op = "transform"     -> ReplaceFirst(v)
     [] op = "store-load"    -> Sorted(v, "lenfirst")
     [] op = "walk-subset"   -> FirstSliceable(v)
+    [] op = "stale-assembler" -> MapV(<<<<97>>, <<98>>>>, <<I(1), ListV(<<I(2)>>)>>)
+                                 \* a fresh node whose builder keeps a value-assembler handle it then calls after Build
     [] OTHER -> Nil                      \* read, iter-partial, encode-*, walk: no new node
 
 Op(op, i) ==
